@@ -70,4 +70,22 @@ impl ResolveRegistry {
 
         resolved
     }
+
+    /// Verification hook: the ids currently stored, with the kind of each entry (read-only).
+    #[cfg(crux_verif)]
+    pub fn verif_entries(&self) -> Vec<(u32, &'static str)> {
+        self.0
+            .lock()
+            .expect("Registry Mutex poisoned")
+            .iter()
+            .map(|(id, entry)| {
+                let kind = match entry {
+                    ResolveSerialized::Never => "never",
+                    ResolveSerialized::Once(_) => "once",
+                    ResolveSerialized::Many(_) => "many",
+                };
+                (u32::try_from(id).expect("EffectId overflow"), kind)
+            })
+            .collect()
+    }
 }
